@@ -140,9 +140,11 @@ def gen_weights(rng, n):
     return ws
 
 
-def gen_dist(rng, kind=None, nmax=5, p_empty=0.0):
+def gen_dist(rng, kind=None, nmax=5, p_empty=0.0, pool=None):
     kind = kind or rng.choice(KINDS)
     n = 1 if kind == "det" else rng.choice([1, 2, 2, 3, 3, 4, nmax])
+    if pool:
+        n = min(n, len(pool))
     if kind in ("dict", "pairs", "uniform") and rng.random() < p_empty:
         n = 0       # empty support: DictDistribution({}), from_pairs([]), UniformDistribution([])
     if kind == "uniform" and n and rng.random() < .2:
@@ -153,9 +155,9 @@ def gen_dist(rng, kind=None, nmax=5, p_empty=0.0):
                     "classmethod": rng.random() < .3}
         chars = rng.sample(["a", "b"], min(n, 2))
         return {"kind": kind, "events": [enc(c) for c in chars], "seq": "str", "classmethod": rng.random() < .3}
-    distinct = kind in ("uniform", "table") or rng.random() < .6
+    distinct = kind in ("uniform", "table") or rng.random() < .6 or bool(pool)
     if distinct:
-        ids = rng.sample(range(NID), n)
+        ids = rng.sample(pool or range(NID), n)
         pos = [rng.choice(POS_OF_ID[i]) for i in ids]
     else:           # colliding keys on purpose
         base = rng.choice([0, 1, ID[(0, 1)], ID[(1,)], ID[frozenset({1, 2})]])
@@ -242,6 +244,8 @@ def gen_u(rng, ws, tot):
 
 def gen_case(rng):
     d1, d2 = gen_dist(rng, p_empty=.015), gen_dist(rng, p_empty=.05)
+    if rng.random() < .1:       # numeric events only: expectation() with its default real_function applies
+        d1 = gen_dist(rng, pool=sorted(NUMVAL))
     if rng.random() < .5 and d1["events"]:       # make overlapping supports likely
         d2 = gen_dist(rng, kind=rng.choice(["dict", "pairs", "softmax"]))
         take = d1["events"][:rng.randint(1, len(d1["events"]))]
@@ -270,7 +274,7 @@ def gen_case(rng):
     big = rng.random() < .15
     real_ids = [str(F(rng.randint(-32, 32), 4) * (10**6 if big else 1)) for _ in range(NID)]
     sup1 = sorted(set(spec_ids(d1)))
-    default_real = bool(sup1) and all(i in NUMVAL for i in sup1) and rng.random() < .6
+    default_real = bool(sup1) and all(i in NUMVAL for i in sup1) and rng.random() < .8
     if default_real:    # expectation() with the default real_function (identity) on numeric events
         for i in sup1:
             real_ids[i] = NUMVAL[i]
